@@ -115,6 +115,24 @@ MUTANTS = [
     ('C09', 'readonly-new-oid', BS,
      "    def new_oid(self):\n        if self._is_read_only:\n            raise POSException.ReadOnlyError()",
      "    def new_oid(self):\n        if False:\n            raise POSException.ReadOnlyError()"),
+    ('C06', 'undo-always-copies', FS,
+     "                        # the data being undone.  We can't just copy:\n                        copy = False",
+     "                        # the data being undone.  We can't just copy:\n                        copy = True"),
+    ('C06', 'undo-creation-writes-prev', FS,
+     "            # (possibly because some of them were undos).\n            return \"\", 0, ipos",
+     "            # (possibly because some of them were undos).\n            return \"\", ipos, ipos"),
+    ('C06', 'undo-no-invalidation', MV,
+     "            self._base._invalidate_finish(tid, self._undone, None)\n            func(tid)",
+     "            func(tid)"),
+    ('C06', 'undo-resolve-args-swapped', FS,
+     "                oid, ctid, tid, pre_data, current_data)",
+     "                oid, tid, ctid, pre_data, current_data)"),
+    ('C06', 'undo-partial-on-failure', FS,
+     "        if failures:\n            raise MultipleUndoErrors(list(failures.items()))",
+     "        if failures and not tindex:\n            raise MultipleUndoErrors(list(failures.items()))"),
+    ('C06', 'undo-packed-allowed', FS,
+     "        if th.status != \" \":\n            raise UndoError('non-undoable transaction')",
+     "        if False:\n            raise UndoError('non-undoable transaction')"),
 ]
 
 
